@@ -9,7 +9,7 @@
                          same lengths and key sets, equal leaves, equal pointer targets;
    exp_only t          = every struct field reachable in t is exported;
    finite [] t v       = every float the function looks at is finite. *)
-From Verif Require Import Go.Ty Go.Val Go.Equal GoStr.Model GoStr.Geval GoStr.Match GoStr.Proofs.
+From Verif Require Import Go.Ty Go.Val Go.Equal GoStr.Model GoStr.Geval GoStr.Match GoStr.Proofs GoStr.PtrKeys.
 
 (* For EVERY type with exported fields only and EVERY well-typed value with finite floats the
    printed expression is accepted by the evaluator and denotes a value structurally equal to the
@@ -70,3 +70,14 @@ Theorem C06_gostring_unexported_refuted :
   end.
 Proof. exact gostring_unexported_refuted. Qed.
 Print Assumptions C06_gostring_unexported_refuted.
+
+(* Maps whose key type owns pointers (map[*T]V, struct keys with a pointer field) are outside [has_type]
+   (their keys can be equal by content and different under ==); observations on them are judged with
+   [has_typek] / [spec_eqk] of GoStr/PtrKeys.v, which compares the entries of a map as a multiset, keys by
+   content.  That equality holds between every typed value and itself (whatever the addresses), so a
+   reported difference is a difference of contents; PtrKeys.v: twin_roundtrips / twin_merged_differs are
+   the round trip and its failure on the map { {"a", &Lab{"l"}}: 1, {"a", &Lab{"l"}}: 2 }. *)
+Theorem C06_ptrkey_equality_reflexive : forall v e t,
+  has_typek e t v = true -> spec_eqk e t v v = Some true.
+Proof. exact spec_eqk_refl. Qed.
+Print Assumptions C06_ptrkey_equality_reflexive.
